@@ -490,6 +490,12 @@ func (e *Engine) initIntrinsics() {
 	in["math/rand.Int63n"] = randIntn
 	in["math/rand.Int31n"] = randIntn
 	in["math/rand/v2.IntN"] = randIntn
+	for _, pk := range []string{"golang.org/x/exp/slog", "log/slog"} {
+		for _, n := range []string{"Debug", "Info", "Warn", "Error", "DebugContext", "InfoContext", "WarnContext", "ErrorContext", "Log", "LogAttrs"} {
+			in[pk+"."+n] = nop
+			in["(*"+pk+".Logger)."+n] = nop
+		}
+	}
 	in["os.Getenv"] = func(p *Path, fn *ssa.Function, args []Value) Value { return &Str{} }
 	in["os.Exit"] = func(p *Path, fn *ssa.Function, args []Value) Value {
 		c, _ := p.cint(args[0].(*Term))
@@ -641,6 +647,10 @@ func (p *Path) sprintf(format *Str, args []*Iface, lenient bool) *Str {
 				emit(fmt.Sprintf(spec[:len(spec)-1]+string(v), cs))
 				continue
 			}
+			if lenient {
+				emit("<?>") // error/log text: symbolic content is not reproduced
+				continue
+			}
 			if verb == 'q' || !plain {
 				if lenient {
 					emit("<?>")
@@ -683,6 +693,30 @@ func (p *Path) fmtScalar(spec string, t *Term, typ types.Type, lenient bool) []*
 		}
 		v := p.concretize(t, "Sprintf integer")
 		t = p.tt.Const(t.S.W, v)
+	}
+	if !t.IsConst() && t.S.K == SFP && spec == "%g" && !lenient {
+		// %g of a symbolic float: an arbitrary 3-byte text over the verb's alphabet, the
+		// same text for the same value term (stated stub: fmt is not interpreted)
+		if p.gtext == nil {
+			p.gtext = map[int][]*Term{}
+		}
+		if bs, ok := p.gtext[t.ID]; ok {
+			return bs
+		}
+		bs := make([]*Term, 3)
+		for i := range bs {
+			b := p.tt.Fresh("gtext", BV(8))
+			bs[i] = b
+			isd := p.tt.And(p.tt.Ule(p.tt.Const(8, '0'), b), p.tt.Ule(b, p.tt.Const(8, '9')))
+			var alts []*Term
+			alts = append(alts, isd)
+			for _, c := range []byte(".e+-") {
+				alts = append(alts, p.tt.Eq(b, p.tt.Const(8, uint64(c))))
+			}
+			p.addPC(p.tt.Or(alts...))
+		}
+		p.gtext[t.ID] = bs
+		return bs
 	}
 	if !t.IsConst() {
 		if lenient {
